@@ -6,6 +6,8 @@ func (s *Sim) execMore(op Op) {
 	switch op.Kind {
 	case "reload":
 		s.execReload(op)
+	case "malformed":
+		s.execMalformed(op)
 	}
 }
 
@@ -13,6 +15,8 @@ func (s *Sim) genMore(kind string) (Op, bool) {
 	switch kind {
 	case "reload":
 		return s.genReload()
+	case "malformed":
+		return s.genMalformed()
 	}
 	return Op{}, false
 }
@@ -22,6 +26,7 @@ func (s *Sim) oracleMore(op Op, evs []SIEvent, preds []PredCall) {
 	s.oracleC05(op, evs)
 	s.oracleC16(op, evs)
 	s.oracleC06(op, evs)
+	s.oracleC13(op, evs)
 }
 
 func (s *Sim) checkDrainedMore() {}
